@@ -210,3 +210,17 @@ pub fn model(c: &Case) -> Option<Option<Vec<u8>>> {
     _ => None,
   }
 }
+
+/// Is the input the canonical encoding of the value the model decodes it to (no ignored
+/// trailing bytes, no ignored partial element)? Only canonical encodings MUST be accepted;
+/// a decoder that refuses the non-canonical forms the documented layout tolerates is within
+/// the statement of C08 (which binds a decoder only when it accepts).
+pub fn input_is_canonical(c: &Case, canon: &[u8]) -> bool {
+  let b0: &[u8] = c.blobs.first().map(|b| &b[..]).unwrap_or(&[]);
+  match c.target {
+    Target::SharksTryFrom | Target::AdssFromBytes | Target::StarShareFromBytes | Target::MessageFromBytes => canon == b0,
+    Target::LoadBytes => b0.len() == 4 + canon.len(),
+    Target::LoadU32 | Target::AccessStructure => b0.len() == 4,
+    _ => false,
+  }
+}
